@@ -82,6 +82,8 @@ class ZS:
         self.obj = None
         self.enum_by_sort = {}
         self.union_by_sort = {}
+        self.recs = {}
+        self.rec_by_sort = {}
 
     # ------------------------------------------------------------ sorts
     def zsort(self, S):
@@ -116,6 +118,14 @@ class ZS:
                 self.enums[S.name] = (srt, dict(zip(labels, consts)), objs, S)
                 self.enum_by_sort[srt.name()] = self.enums[S.name]
             return self.enums[S.name][0]
+        if isinstance(S, api.Rec):
+            if S.name not in self.recs:
+                dt = z3.Datatype(S.name)
+                dt.declare('mk_' + S.name, *[(f'{S.name}_{k}', self.zsort(fs)) for k, fs in S.fields.items()])
+                dt = dt.create()
+                self.recs[S.name] = (dt, S)
+                self.rec_by_sort[dt.name()] = (dt, S)
+            return self.recs[S.name][0]
         if isinstance(S, api.Abstract):
             if S.name not in self.abstract:
                 srt = z3.DeclareSort(S.name)
@@ -145,6 +155,8 @@ class ZS:
             return tuple(self.sym(e, f'{name}.{i}', resolver) for i, e in enumerate(S.elems))
         if isinstance(S, api.Abstract):
             return VAbs(z3.Const(name, self.zsort(S)), S)
+        if isinstance(S, api.Const):
+            return S.value
         if S is api.Obj:
             return VObj(z3.Const(name, self.zsort(S)))
         if isinstance(S, api.Enum) and resolver:
@@ -188,6 +200,9 @@ class ZS:
                 if o is v or (isinstance(v, (str, int)) and type(o) is type(v) and o == v):
                     return terms[label]
             raise TypeError(f'{v!r} is not a member of enum {S.name}')
+        if zsort.name() in self.rec_by_sort and isinstance(v, tuple):
+            dt, S = self.rec_by_sort[zsort.name()]
+            return dt.constructor(0)(*[self.lift(x, self.zsort(fs)) for x, fs in zip(v, S.fields.values())])
         if isinstance(zsort, z3.SeqSortRef) and isinstance(v, (tuple, list)):
             es = zsort.basis()
             if not v:
@@ -269,6 +284,8 @@ class ZS:
             for label, c in terms.items():
                 if c.eq(t):
                     return {'__enum__': S.name, 'label': label}
+        if s.name() in self.rec_by_sort:
+            return tuple(self.term_to_py(c) for c in t.children())
         return {'__term__': str(t)}
 
     def _seq_elems(self, t):
